@@ -1,5 +1,6 @@
 import SlipVerif.Theorems.C15
 import SlipVerif.Lemmas.FormatFuel
+import SlipVerif.Lemmas.FormatKeeps
 /-! C15 — the interpreter without fuel. `Lemmas/FormatFuel` proves that more fuel never changes a
     successful run; here the fuel is quantified away: `Runs` / `RunsItem` / `Loops` are the big-step
     relations "some fuel suffices", they are deterministic, they satisfy the usual compositional rules
@@ -292,5 +293,32 @@ theorem formatText_sound (ctrl : Txt) (args : List Arg) (t : Txt) (h : formatTex
       simp only [hr, pure, Except.pure] at h
       injection h with h
       exact ⟨items, st, fl, rfl, ⟨defaultFuel, hr⟩, h.symm⟩
+
+/-! ## what every run keeps -/
+
+/-- no directive, block or composition changes the argument list, and a cursor that is inside 0..length
+    before a run is inside afterwards — whatever ~* ~:* ~@* ~:P ~? ~{ … the control string contains -/
+theorem runs_keep_arguments_and_cursor (T : EnglishTables) (is : List Item) (st st1 : St) (fl : Flow)
+    (h : Runs T is st (st1, fl)) : st1.args = st.args ∧ (st.pos ≤ st.args.length → st1.pos ≤ st1.args.length) := by
+  obtain ⟨f, h⟩ := h
+  exact ((keepsAt T f).items is st).elim (st1, fl) h
+
+/-- a single directive likewise -/
+theorem simple_directive_keeps (T : EnglishTables) (k : Kind) (vs : List PVal) (colon atm : Bool) (st st1 : St)
+    (h : runSimple T k vs colon atm st = .ok st1) : st1.args = st.args ∧ (st.pos ≤ st.args.length → st1.pos ≤ st1.args.length) :=
+  (runSimple_keeps T k vs colon atm st).elim st1 h
+
+/-- so every state `format` reaches has its cursor inside the arguments (the hypothesis of the code
+    obligation `move_code_is_the_model`): it starts at 0 -/
+theorem format_cursor_stays_inside (ctrl : Txt) (args : List Arg) (items : List Item) (st : St) (fl : Flow)
+    (h : Runs genTables items ⟨args, 0, []⟩ (st, fl)) : st.args = args ∧ st.pos ≤ args.length := by
+  have := runs_keep_arguments_and_cursor genTables items ⟨args, 0, []⟩ st fl h
+  refine ⟨this.1, ?_⟩
+  have h2 := this.2 (Nat.zero_le _)
+  rw [this.1] at h2
+  exact h2
+
+example : runSimple genTables .star [.num 2] true false ⟨[.int 1, .int 2, .int 3], 3, []⟩ = .ok ⟨[.int 1, .int 2, .int 3], 1, []⟩ := by
+  simp [runSimple, natParam, bind, Except.bind, pure, Except.pure]
 
 end SlipVerif.Theorems.C15Runs
